@@ -26,11 +26,7 @@
   is what Spec/Eval.render renders with the Go library, for templates with arbitrary lists of these directives.
   The directive-free theorems of C04f are the corollaries with no name admitted (they need `EscapeHtmlIs` only).
 
-  LEFT: the converse (`gen_complete_…` against Spec/Eval.render WITH directives).  Spec/Eval with the Go library
-  prints floats and integers beyond 2^53, on which the JavaScript reference is `unspec`; with directives the
-  reference's print has no fall-back as the directive-free one has (`refPrint_nil_eq`), so the mirror lemma of
-  `PrintLe` needs the equational form of `DirIs` and a "renders or unspec" induction through `spec_le_ref_*`.
-  The converse at the level of the reference semantics (`gen_complete_registry_partial`) holds for every directive list.
+  The converse WITH directives (`gen_complete_…_goLib_partial`) is Props/C04h, under the equational obligations `DirEq`.
 -/
 import SoyVerif.Props.C04f
 import SoyVerif.Props.C02Spec
@@ -351,6 +347,43 @@ theorem goRun_sim (names : List Bytes) (hdir : ∀ name ∈ names, DirIs F name)
             rw [hstep hsc _ hgv]
             exact hvr
 
+omit hesc in
+/-- the literal arguments of the admitted directives look nothing up: the loop does not depend on the environment -/
+theorem runDirs_env (D : Spec.Eval.DirSem) (names : List Bytes) (env env' : SEnv) :
+    ∀ (ds : List Directive) (v : Val) (esc : Bool), dirsOkIn names ds = true →
+      Spec.Eval.runDirs (some D) env ds v esc = Spec.Eval.runDirs (some D) env' ds v esc
+  | [], _, _, _ => rfl
+  | d :: ds, v, esc, hok => by
+    simp only [dirsOkIn, List.all_cons, Bool.and_eq_true] at hok
+    obtain ⟨hd, hrest⟩ := hok
+    unfold dirOkIn at hd
+    cases hl : Directives.lookup Gen.directiveTable d.name with
+    | none => simp [hl] at hd
+    | some e =>
+      simp only [hl, Bool.and_eq_true] at hd
+      obtain ⟨lits, hlits⟩ := Option.isSome_iff_exists.mp hd.1.2
+      rw [Spec.Eval.runDirs, Spec.Eval.runDirs]
+      cases D.lookup d.name with
+      | none => rfl
+      | some x =>
+        obtain ⟨ar, impl, cancel⟩ := x
+        simp only [evalAll_lits env d.args lits hlits, evalAll_lits env' d.args lits hlits]
+        split
+        · rfl
+        · simp only [Spec.Eval.Out.bind]
+          cases D.apply impl v lits with
+          | val v' => exact runDirs_env D names env env' ds v' _ hrest
+          | error => rfl
+          | unspec => rfl
+
+omit hesc in
+theorem specPrint_env (names : List Bytes) (env env' : SEnv) (esc : Bool) (dirs : List Directive) (v : Val)
+    (hok : dirsOkIn names dirs = true) :
+    specPrint (some goLib) esc env dirs v = specPrint (some goLib) esc env' dirs v := by
+  have hD : Spec.Eval.dirsOf (some goLib) = some (modelDirSem Gen.directiveTable) := rfl
+  unfold specPrint
+  rw [hD, runDirs_env (modelDirSem Gen.directiveTable) names env env' dirs v esc hok]
+
 /-- `PrintLe` for the directive lists over `names`, from `DirIs` for these names (and `EscapeHtmlIs`) -/
 theorem printLe_dirsIn (names : List Bytes) (hdir : ∀ name ∈ names, DirIs F name) :
     PrintLe F (dirsOkIn names) (some goLib) := by
@@ -359,12 +392,18 @@ theorem printLe_dirsIn (names : List Bytes) (hdir : ∀ name ∈ names, DirIs F 
   · subst hnil
     exact print_le_noDirs F ae hesc (some goLib) [] env v s rfl h
   · have hne : dirs.isEmpty = false := by cases dirs <;> simp_all
-    -- with directives the reference's print has no fall-back
+    -- where the JSON reading is silent the reference's print IS Spec/Eval's (the arguments are literals)
+    cases hjs0 : refPrintJs F ae dirs v with
+    | unspec =>
+      simp only [refPrint, hjs0, hne, Bool.false_eq_true, if_false] at h
+      rw [specPrint_env names env env0 (ae != .off) dirs v hok]
+      exact h
+    | error => simp [refPrint, hjs0] at h
+    | val s' =>
     have hjs : refPrintJs F ae dirs v = .val s := by
-      unfold refPrint at h
-      split at h
-      · simp [hne] at h
-      · exact h
+      simp only [refPrint, hjs0, Out.val.injEq] at h
+      rw [← h]; exact hjs0
+    clear hjs0
     unfold refPrintJs at hjs
     cases hv : toJsV v with
     | none => simp [hv] at hjs
